@@ -2,7 +2,11 @@
    and libraries. *)
 From Coq Require Import Arith List Bool Lia.
 Import ListNotations.
-From Cffi Require Import C28.Model.
+From Cffi Require Import C28.Gen C28.Model.
+
+(* the proofs are about the code as it is: the fast-path switch inside the success branch.  If the
+   regenerated Gen.v says otherwise, [ustep] fails and every theorem about [step] stops checking. *)
+Ltac ustep := unfold step, step_gen; change gen_switch_in_success with true; cbv beta iota zeta.
 
 (* ------------------------------------------------------------------ projections *)
 Lemma updf_same {A} (f : nat -> A) i v : updf f i v i = v.
@@ -12,7 +16,7 @@ Proof. unfold updf. intros N. destruct (Nat.eqb_spec j i); [contradiction | refl
 
 (* what one step can do to the stacks: only the stepping thread's stack changes *)
 Ltac step_cases s t c :=
-  unfold step; cbv beta iota zeta;
+  ustep; cbv beta iota zeta;
   destruct (t <? nthr s) eqn:Ht; cbn [negb];
   [ destruct (stacks s t) as [| [l p] rest] eqn:Hst;
     [ destruct c | destruct p ] | ].
@@ -46,11 +50,11 @@ Lemma stepA s tc : InvA s -> InvA (step s tc).
 Proof.
   intros [I M]. destruct tc as [t c]. constructor.
   - intros t' L. rewrite step_nthr in L. destruct (Nat.eqb_spec t' t).
-    + subst. unfold step. assert (E : (t <? nthr s) = false) by (apply Nat.ltb_ge; exact L).
+    + subst. ustep. assert (E : (t <? nthr s) = false) by (apply Nat.ltb_ge; exact L).
       rewrite E. cbn. apply I. exact L.
     + rewrite step_other by assumption. apply I. exact L.
   - intros t'. destruct (Nat.eqb_spec t' t); [subst | rewrite step_other by assumption; apply M].
-    specialize (M t). unfold step. cbv beta iota zeta.
+    specialize (M t). ustep. cbv beta iota zeta.
     destruct (t <? nthr s) eqn:Ht; cbn [negb]; [|exact M].
     destruct (stacks s t) as [| [l p] rest] eqn:Hst.
     + destruct c; simp_state; rewrite ?updf_same, ?Hst; cbn [tl]; constructor.
@@ -106,7 +110,7 @@ Ltac stk := rewrite ?updf_same; intros; rewrite ?updf_other by assumption; try r
 
 Lemma stepB s tc : InvA s -> InvB s -> InvB (step s tc).
 Proof.
-  intros A B. destruct tc as [t c]. unfold step. cbv beta iota zeta.
+  intros A B. destruct tc as [t c]. ustep. cbv beta iota zeta.
   destruct (t <? nthr s) eqn:Ht; cbn [negb]; [|exact B].
   destruct (stacks s t) as [| [l p] rest] eqn:Hst.
   - destruct c; try exact B.
